@@ -398,6 +398,12 @@ fn coerce_i64(array: &Int64Array, target_type: &ArrowType) -> Result<ArrayRef> {
                 Arc::new(array) as _
             }
         },
+        ArrowType::Decimal32(p, s) => {
+            let array: PrimitiveArray<Decimal32Type> = array
+                .unary(|i| i as i32)
+                .with_precision_and_scale(*p, *s)?;
+            Arc::new(array) as _
+        }
         ArrowType::Decimal64(p, s) => {
             let array = array
                 .reinterpret_cast::<Decimal64Type>()
